@@ -74,6 +74,15 @@ def _q_take_head(eng, st, recv, items):
         head == 0, taken.t, z3.Concat(taken.t, z3.Unit(head)))))
     tn = eng.heap_load(st, recv, 'taken_none')
     eng.heap_store(st, recv, 'taken_none', V(INT, z3.If(head == 0, tn.t + 1, tn.t)))
+    c = eng.cur_contract
+    if c is not None and getattr(c, 'queue_rely_', None) and not st.spec:
+        src, reason = c.queue_rely_
+        env = dict(st.env)
+        env['x'] = V(QITEM, head)
+        st.pc.append(eng.spec_bool(src, st, env))
+        note = 'rely (queue items of %s): %s - %s' % (eng.cur_func, src, reason)
+        if note not in eng.dropped:
+            eng.dropped.append(note)
     return V(QITEM, head)
 
 
@@ -720,6 +729,35 @@ def _wsgi_app_call(eng, st, f, args, kwargs, line):
 
 LIBM[('opaque:EngineApp', 'handle_request')] = _engine_handle_request
 OPAQUE_CALL['WSGIApplication'] = _wsgi_app_call
+
+
+# ---- the clients' HTTP transport (requests.Session / aiohttp; assumed) ---------------------------
+resp_status = z3.Function('http_resp_status', z3.IntSort(), z3.IntSort())
+
+
+@libfn('rt.http_request')
+def _http_request(eng, st, args, kwargs, line):
+    """Client._send_request(method, url, headers=, body=, timeout=): hands the request to the HTTP
+    library (a blocking call bounded by `timeout`); the body of a POST is appended to the ghost
+    `http_bodies`. Returns the response object, None (refused) or the error text."""
+    s2 = st.copy()
+    advance_clock(eng, s2, None)
+    body = kwargs.get('body')
+    if body is not None and body.ty.kind != 'none':
+        if body.ty.kind not in ('str', 'bytes'):
+            raise core.EngineError('HTTP body of type %r at line %d' % (body.ty, line))
+        g = s2.ghost
+        g['http_bodies'] = V(List(STR), z3.Concat(g['http_bodies'].t, z3.Unit(body.t)))
+        eng._wrote(s2, ('ghost', 'http_bodies'))
+    r = z3.Int(eng.name('http_resp'))
+    s2.pc.append(r >= 1)
+    yield s2, V(Opaque('HttpResp'), r)
+    yield s2.copy(), VNONE
+    yield s2.copy(), vstr(z3.String(eng.name('http_error')))
+
+
+lib.OPAQUE_ATTR[('HttpResp', 'status_code')] = lambda eng, st, o: V(INT, resp_status(o.t))
+LIBM[('opaque:WS', 'send_binary')] = lambda *a: _ws_send(*a)
 
 
 # ---- ASGI server callables (assumed: receive() yields an event dict with a 'type'; send(msg)
